@@ -53,21 +53,25 @@ type placement struct {
 	// readerFirst: the reader is created BEFORE the file is added to the set (the order
 	// examples/json/json/parser_test.go uses), so anything it copied from the file at construction is stale
 	readerFirst bool
+	// reRegister: the file is first added behind the preceding files and the reader created, then the same file is
+	// added as the only file of a FRESH set (its base offset changes back to 1) and used through that set
+	reRegister bool
 }
 
 var placements = []placement{
-	{"alone", nil, false},
-	{"after an empty file", []int{0}, false},
-	{"after a 3-byte file", []int{3}, false},
-	{"after two empty files", []int{0, 0}, false},
-	{"after files of 2 and 5 bytes", []int{2, 5}, false},
-	{"after a 998-byte file", []int{998}, false},
-	{"after a 3-byte file, reader created before the file was added", []int{3}, true},
+	{"alone", nil, false, false},
+	{"after an empty file", []int{0}, false, false},
+	{"after a 3-byte file", []int{3}, false, false},
+	{"after two empty files", []int{0, 0}, false, false},
+	{"after files of 2 and 5 bytes", []int{2, 5}, false, false},
+	{"after a 998-byte file", []int{998}, false, false},
+	{"after a 3-byte file, reader created before the file was added", []int{3}, true, false},
+	{"registered after a 5-byte file, reader created, then registered again alone in a fresh set", []int{5}, false, true},
 	// base offsets at the widths a packed cache key or a narrowed integer might assume (stub files: no data is allocated)
-	{"after a 65535-byte file", []int{65535}, false},
-	{"after a 2 GiB file", []int{1<<31 - 1}, false},
-	{"after files of 3 bytes and 4 GiB", []int{3, 1 << 32}, false},
-	{"after files of 3 bytes and 8 GiB", []int{3, 1 << 33}, false},
+	{"after a 65535-byte file", []int{65535}, false, false},
+	{"after a 2 GiB file", []int{1<<31 - 1}, false, false},
+	{"after files of 3 bytes and 4 GiB", []int{3, 1 << 32}, false, false},
+	{"after files of 3 bytes and 8 GiB", []int{3, 1 << 33}, false, false},
 }
 
 // stubFile stands in for a huge preceding file: it only has a length.
@@ -103,6 +107,10 @@ func place(pl placement, name string, content []byte) (*parsley.FileSet, *text.F
 		return fs, f, r, base
 	}
 	fs.AddFile(f)
+	if pl.reRegister {
+		r := text.NewReader(f)
+		return parsley.NewFileSet(f), f, r, 1
+	}
 	return fs, f, text.NewReader(f), base
 }
 
